@@ -26,15 +26,20 @@ import pegdump
 IMPORTS = ("From TxV Require Import Core.Base Core.Show Model.PegSyntax Model.Peg Model.PegShow Model.PegEquiv "
            "Gen.SrcLangPeg Gen.SrcTxPeg.\nOpen Scope string_scope.")
 FUEL = 600
+# the regular expressions the checker assumes never to match the empty string (mirror of
+# Model/PegEquiv.v textx_nonempty_patterns; compared with the Coq value on every run and checked on every text)
+NONEMPTY_PATTERNS = [r"\w+"]
 # the oracle as a per-oracle-id association list (same function as Peg.orc_of on the flat table, faster to evaluate)
 DEFS = """Definition orc2 (t : list (list (nat * nat))) (o p : nat) : option nat :=
   (fix go (l : list (nat * nat)) : option nat :=
      match l with [] => None | (p', v) :: l' => if Nat.eqb p p' then Some v else go l' end) (nth o t []).
 Definition c24_diffs (only_unaccepted : bool) : string :=
   let d := diff_labels lang_labels tx_labels
-             (peg_equiv_diffs (seeds_of lang_labels tx_labels textx_seeds) lang_grammar tx_grammar) in
+             (peg_equiv_diffs (ne_of lang_oracles textx_nonempty_patterns)
+                (seeds_of lang_labels tx_labels textx_seeds) lang_grammar tx_grammar) in
   let d := if only_unaccepted then filter (fun p => negb (existsb (lp_eqb p) textx_accepted_diffs)) d else d in
   sjoin ";" (map (fun p => String.append (show_str (fst p)) (String.append "~" (show_str (snd p)))) d).
+Definition c24_ne : string := sjoin ";" (map show_str textx_nonempty_patterns).
 Definition c24_case (t : list (list (nat * nat))) (inp : list N) : string :=
   String.append (show_outcome lang_grammar (run lang_grammar lang_config (orc2 t) false %d inp))
     (String.append " | " (show_outcome tx_grammar (run tx_grammar tx_config (orc2 t) false %d inp))).""" % (FUEL, FUEL)
@@ -347,7 +352,8 @@ def tx_accepts(o):
 def run_texts(texts, tables=False):
     chunks = [list(range(i, len(texts), core.NPROC)) for i in range(core.NPROC)]
     chunks = [c for c in chunks if c]
-    outs = core.run_impl_parallel("c24", [{"mode": "cases", "texts": [texts[i] for i in ch], "tables": tables} for ch in chunks])
+    outs = core.run_impl_parallel("c24", [{"mode": "cases", "texts": [texts[i] for i in ch], "tables": tables,
+                                           "nonempty": NONEMPTY_PATTERNS} for ch in chunks])
     res = [None] * len(texts)
     for ch, o in zip(chunks, outs):
         for i, x in zip(ch, o):
@@ -380,7 +386,7 @@ def run(chk):
         chk.stat("%s compiler=%s textx.tx=%s" % (c["kind"].split(":")[0], "accept" if acc_l else "reject", "accept" if acc_t else "reject"))
         # glue: the API-level classification must be the Arpeggio-level one
         if (o["lang"] == "P") != acc_l or (o["tx"] == "P") != acc_t or o["lang"].startswith("X") or o["tx"].startswith("X") \
-                or o["api_tx"].startswith(("crash", "semantic", "syntax-visitor")) or o.get("merge_mismatch"):
+                or o["api_tx"].startswith(("crash", "semantic", "syntax-visitor")) or o.get("merge_mismatch") or o.get("empty_match"):
             disagreements.append({"case": c["text"], "impl": o, "model": "API level and parser level classify the text differently, "
                                   "or grammar_model_from_str failed otherwise than by a syntax error, or merged regex texts differ"})
         if acc_l != acc_t:
@@ -417,11 +423,14 @@ def run(chk):
         tbl = "[" + ";".join("[" + ";".join("(%d,%d)" % x for x in per.get(i, [])) + "]" for i in range(nor)) + "]"
         s = pegdump.coq_str(c["text"])
         exprs.append("c24_case %s %s" % (tbl, s))
-    exprs = ["c24_diffs false", "c24_diffs true"] + exprs
+    exprs = ["c24_diffs false", "c24_diffs true", "c24_ne"] + exprs
     t0 = time.time()
     vals, errs = core.coq_eval("C24", IMPORTS, exprs, shard=max(1, -(-len(exprs) // core.NPROC)), defs=DEFS)
-    all_diffs, unaccepted = vals[0], vals[1]
-    vals = vals[2:]
+    all_diffs, unaccepted, ne_coq = vals[0], vals[1], vals[2]
+    vals = vals[3:]
+    if ne_coq != ";".join(core.canon_text(x) for x in NONEMPTY_PATTERNS):
+        disagreements.append({"case": "the non-empty regex list of the check differs from Model/PegEquiv.v textx_nonempty_patterns",
+                              "impl": NONEMPTY_PATTERNS, "model": ne_coq})
     chk.cov["differing_pairs"] = all_diffs
     if unaccepted is None or unaccepted != "":
         disagreements.append({"case": "the two live parser models differ outside the accepted pairs (lang.py label ~ textx.tx label)",
